@@ -42,8 +42,8 @@ def r1_pairing(ctx):
                 elif nm == H + '::exec':
                     order.append('exec')
             # left through the harness' panic error?  (`.catch()?`)
-            panic_exit = any(a[0] == 'is' and a[2] in ('Break', 'Err') and a[1][0] == 'call' and
-                             any(x[0] == 'call' and x[1] in (H + '::catch', H + '::pass') for x in walk(a[1])) for a in atoms)
+            panic_exit = any((result_state(a) or ('', None))[0] == 'err' and
+                             any(x[0] == 'call' and x[1] in (H + '::catch', H + '::pass') for x in walk(result_state(a)[1])) for a in atoms)
             n += 1
             if panic_exit:
                 ctx.check(order[:2] == ['up', 'exec'], 'panic-exit-shape:%s' % k.split('::')[-1], 'a panic error leaves after upstream and the harnessed handler', f.where_path(path), order)
